@@ -27,6 +27,7 @@ def run(ctx, crate):
     rule_suspend_protocol(ctx, crate)
     D.rule_rows_newtype(ctx, crate)
     D.rule_width_source(ctx, crate)
+    D.rule_line_kinds(ctx, crate)
 
 
 def rule_println_forced(ctx, crate, rule="R-PRINTLN-FORCED"):
